@@ -6,6 +6,7 @@
 //
 // Reference model: request status {idle, queued, transmitted}, parameter set of the accepted request, identifier of the
 // outstanding request, identifier of the request completed last.
+#define C31_ASAN_REPORT_EVERY_ERROR      // mc::Bfs replays failing traces in-process: every ASan error has to be reported
 #include "C31_common.hpp"
 
 #ifndef VIA_L2CAP
@@ -80,6 +81,14 @@ struct World
     }
     int  n_quick = 0;
     bool thorough = false;
+
+    // Every ASan report costs ~10 ms (the run time maps and unmaps its report buffers).  An input event that has produced a
+    // memory error in `mem_fail_limit` states is not tried in further states: the defect is recorded (with its shortest
+    // trace, replayed twice long before the limit is reached), more reports add nothing.  Paths never continue behind a
+    // failed step, so no recorded trace contains such an event except as its last step.
+    static constexpr int mem_fail_limit = 32;
+    std::vector< int > mem_fails;
+    int  events_switched_off = 0;
 
     void init()
     {
@@ -244,6 +253,9 @@ struct World
     bool take_port_failure( mc::Ctx& c )
     {
         if ( port_fail_sig.empty() ) return false;
+        // what the channel did with bytes it read outside the frame depends on stale memory: the observation of such a
+        // step is the failure itself, nothing else
+        c.obs = "[" + port_fail_sig + "]";
         c.fail( port_fail_sig, port_fail_detail );
         port_fail_sig.clear(); port_fail_detail.clear();
         return true;
@@ -324,11 +336,17 @@ struct World
         }
 
         // all remaining events are input PDUs
+        if ( mem_fails.size() < evs.size() ) mem_fails.resize( evs.size(), 0 );
+        if ( mem_fails[ i ] >= mem_fail_limit ) return false;
         const bytes pdu = pdu_of( e );
         const std::vector< bytes > out = input( pdu );
         const bool idle_after = probe_idle();
         c.obs = "in " + ( pdu.empty() ? std::string( "<empty>" ) : mc::hex( pdu ) ) + " -> " + show( out ) + ( idle_after ? " [idle]" : " [pending]" );
-        if ( take_port_failure( c ) ) return true;
+        if ( take_port_failure( c ) )
+        {
+            if ( c.fails.back().sig.rfind( "memory:", 0 ) == 0 && ++mem_fails[ i ] == mem_fail_limit ) ++events_switched_off;
+            return true;
+        }
 
         const bool is_response = !pdu.empty() && pdu[ 0 ] == 0x13;
         const bool was_idle    = ref.status == st_idle;
@@ -409,6 +427,7 @@ struct World
 int main( int argc, char** argv )
 {
     mc::Args a = mc::parse_args( argc, argv );
+    c31::symbolize_on_replay( a, argv );
     mc::Report rep; rep.property = "C31";
     rep.unit = a.opt.count( "unit" ) ? a.opt[ "unit" ] : "C31_signaling";
 
@@ -422,6 +441,12 @@ int main( int argc, char** argv )
     if ( !a.replay.empty() ) return bfs.replay_file( mc::read_replay( a.replay ) );
 
     bfs.run();
+    if ( w.events_switched_off )
+    {
+        rep.exhaustive = false;
+        rep.counters[ "input events switched off after 32 memory errors" ] = w.events_switched_off;
+        rep.notes[ "switched-off" ] = "input events that raised a memory error in 32 states were not tried in the remaining states (the error is reported)";
+    }
     rep.notes[ "mode" ]  = mode_name;
     rep.notes[ "bound" ] = "all reachable states of channel + reference model (fixpoint; covers the identifier wrap 255 -> 1); "
                            "33 events: 2 queue, output poll, 13 responses 0x13, 15 other commands, empty and 1-byte PDUs (thorough: + all 256 command codes x identifiers {1,0xFF,0}); lifecycle drain from every state";
